@@ -1248,8 +1248,12 @@ def evaluate__unparsed_text(self: XPathFunction, context: ta.ContextType = None)
     href: Optional[str] = self.get_argument(context, cls=str)
     if href is None:
         return []
-    elif urlsplit(href).fragment:
-        raise self.error('FOUT1170')
+
+    try:
+        if urlsplit(href).fragment:
+            raise self.error('FOUT1170')
+    except ValueError as err:
+        raise self.error('FOUT1170', err) from None
 
     encoding: str
     if len(self) > 1:
@@ -1314,7 +1318,11 @@ def evaluate__unparsed_text_available(self: XPathFunction, context: ta.ContextTy
     href = self.get_argument(context, cls=str)
     if href is None:
         return False
-    elif urlsplit(href).fragment:
+
+    try:
+        if urlsplit(href).fragment:
+            return False
+    except ValueError:
         return False
 
     if len(self) > 1:
